@@ -483,17 +483,19 @@ let handle (line : string) : string =
                     Buffer.add_char out ' ') msgs;
     Printf.sprintf "%s# %s" (Buffer.contents out) (String.concat ";" (List.map (fun s -> str_pages s.v_pages) !b))
   | "CTS" :: _a :: _t :: ops :: rest ->
-    (* several operations on one Sign object: the model's operations carry no state from one call to the next, so each
-       runs on what is left of the script *)
-    let rec drop n l = if n <= 0 then l else match l with [] -> [] | _ :: t -> drop (n - 1) t in
-    let rec go ops script acc = match ops with
-      | [] -> List.rev acc
-      | op :: more ->
-        let (tr, o) = (cop_of_str op).run_s script in
-        let line = Printf.sprintf "%s => %s" (String.concat " " (List.map str_msg tr)) o in
-        if o = "BLOCKED" || o = "CRASH" then List.rev (line :: acc)
-        else go more (drop (List.length tr) script) (line :: acc) in
-    String.concat " ;; " (go (String.split_on_char ',' ops) (List.map reply_of_str rest) [])
+    (* several calls on Sign objects sharing one scripted bus: Model.run_cops_script *)
+    let cop_of (s : string) : Model.cop = match String.split_on_char '.' s with
+      | ["CFG"; a; t] -> CopConfigure (num a, sign_types.(int_of_string t))
+      | ["CIN"; a; t] -> CopConfigureIfNeeded (num a, sign_types.(int_of_string t))
+      | "SND" :: a :: r -> CopSendPages (num a, pages_of_str (String.concat "." r))
+      | ["SHW"; a; fuel] -> CopShow (nat_of_int (int_of_string fuel), num a)
+      | ["LNX"; a; fuel] -> CopLoadNext (nat_of_int (int_of_string fuel), num a)
+      | ["BYE"; a] -> CopShutDown (num a)
+      | _ -> failwith ("bad cop " ^ s) in
+    let str_out = function OutUnit -> "" | OutStyle st -> "." ^ str_style st in
+    let results = run_cops_script (List.map cop_of (String.split_on_char ',' ops)) (List.map reply_of_str rest) in
+    String.concat " ;; " (List.map (fun (tr, o) ->
+        Printf.sprintf "%s => %s" (String.concat " " (List.map str_msg tr)) (str_outcome str_out o)) results)
   | "CT" :: op :: _ when (match String.split_on_char '.' op with
                           | "SND" :: _ :: rest ->
                             List.exists (fun (pg : page) -> match page_from_bytes pg.p_w pg.p_h pg.p_bytes with
